@@ -745,7 +745,7 @@ def sync_cases(rng):
         ["( sleep 0.1; echo 1 >> $M; exit %d ) &" % a, "wait %1; echo \"s=$?\"", WL,
          "jobs > $F; echo \"n=$(grep -o '^\\[[0-9]*\\]' $F | tr -d '\\n')\"",
          "( sleep 0.3; echo 2 >> $M ) &", "jobs > $F; echo \"n=$(grep -o '^\\[[0-9]*\\]' $F | tr -d '\\n')\"",
-         "( sleep 0.3; echo 3 >> $M ) &", "wait %1; echo \"s=$?\"", WL,
+         "( sleep 1.0; echo 3 >> $M ) &", "wait %1; echo \"s=$?\"", WL,      # job 3 is still running at the last listing
          "( sleep 0.05; echo 4 >> $M ) &", "jobs > $F; echo \"n=$(grep -o '^\\[[0-9]*\\]' $F | tr -d '\\n')\""],
         [[1], [1, 2]])
     add("kill_spec", CL_KILL, {"k", "W", "s"}, "kill", ["( sleep 0.4; echo 1 >> $M ) &", "kill %1; echo \"k=$?\"", "wait; echo \"s=$?\"", WL], [[]])
